@@ -11,7 +11,10 @@ package agent
 //   - for the final call of every explored transition the directory is snapshotted before and after, the bytes
 //     the call wrote are recovered from the diff, and the call is re-applied torn at EVERY byte offset (every
 //     prefix of the appended bytes in issue order, every prefix of the overwritten bytes of the erase marker,
-//     every intermediate point of file creation/removal); every such image is reopened with the real recovery
+//     every intermediate point of file creation/removal; and, independent of any assumption about the write
+//     order, from the create/WriteAt(offset, bytes)/remove calls recorded through the seam internal/verif_c09os:
+//     every prefix of the call list, the last applied WriteAt cut at every byte, unwritten bytes zero); every
+//     such image is reopened with the real recovery
 //     path (makeDiscCacheShard + ReadNextTailSecond + GetBucket) and compared with a reference list;
 //   - a second BFS ("rot") starts from a file filled to just below fileRotateSize so that rotation by size, its
 //     exact boundary, and removal of a fully erased rotated file are reachable.
@@ -1732,7 +1735,7 @@ func TestVerifC09(t *testing.T) {
 	rep.Bounds["clock_seam_active"] = seam
 	rep.Bounds["write_call_recorder_active"] = c09OsSeam
 	rep.Assume("crash model of the torn-call images: the file-changing calls of the interrupted operation reach the disk in issue order, the last one that reached it possibly only with a byte prefix; a byte of the file that no call wrote yet reads as zero (hole); no reordering between calls, no sub-call reordering")
-	rep.Assume("torn-write model: bytes reach the file in the order the code issues its WriteAt calls (header, then body); a crash leaves a byte prefix; in-place overwrite of the erase marker leaves a prefix of the overwritten bytes")
+	rep.Assume("torn-write model of the diff-based images: the appended bytes reach the file front to back; a crash leaves a byte prefix; in-place overwrite of the erase marker leaves a prefix of the overwritten bytes")
 	rep.Assume("additional length-first images (file length already final, rest of the BODY zero) exercise the body crc; the same model inside the header is not asserted (statement leaves it open)")
 	if seam {
 		rep.Assume("disk_cache.go runs as an instrumented copy of the working tree (tools/vinstr): const fileRotateSize rewritten (50 MB -> " + fmt.Sprint(fileRotateSize) + " B) and import time -> harness clock (per-execution virtual clock, +1 ms per reading); nothing else is changed")
